@@ -1236,10 +1236,46 @@ def expand_macro(unit, it, src, rel):
     raise Unsupported('macro invocation %s! cannot be expanded' % it.name)
 
 
+def _trait_default(unit, src, mask, path):
+    """path = [.., 'impl crate::a::b::Trait for T', 'fn name']: returns (rel, src, mask, item) of the default method
+    `fn name` in `trait Trait` of src/a/b.rs (or src/a/b/mod.rs), or None"""
+    if len(path) < 2 or not path[-1].startswith('fn '):
+        return None
+    mm = re.match(r'^impl(?:\s*<[^>]*>)?\s+crate::((?:\w+::)+)(\w+)(?:<[^>]*>)?\s+for\b', path[-2])
+    if not mm:
+        return None
+    try:
+        find_item(src, mask, path[:-1])     # the impl itself must still be there
+    except AnchorLost:
+        return None
+    mods = mm.group(1).rstrip(':').split('::')
+    for cand in ('src/' + '/'.join(mods) + '.rs', 'src/' + '/'.join(mods) + '/mod.rs'):
+        try:
+            tsrc, tmask = unit.src(cand)
+        except AnchorLost:
+            continue
+        try:
+            it = find_item(tsrc, tmask, ['trait ' + mm.group(2), path[-1]])
+        except AnchorLost:
+            continue
+        if it.kind == 'fn' and it.body_start is not None:
+            return cand, tsrc, tmask, it
+    return None
+
+
 def emit_fn(unit, loc, dlines, tmpl_where):
     rel, path = parse_locator(loc)
     src, mask = unit.src(rel)
-    it = find_item(src, mask, path)
+    try:
+        it = find_item(src, mask, path)
+    except AnchorLost:
+        # a method that is missing from `impl <crate::path::Trait> for T` runs the trait's default body:
+        # that body is then the code under contract (logged)
+        dflt = _trait_default(unit, src, mask, path)
+        if dflt is None:
+            raise
+        rel, src, mask, it = dflt
+        unit.rule_log.append({'rule': 'DEFAULT', 'before': '%s has no `%s`' % (' :: '.join(path[:-1]), path[-1]), 'after': 'the default method of the trait in %s is what runs' % rel, 'where': loc})
     if it.kind != 'fn':
         raise AnchorLost('%s is not a fn' % loc)
     fn_name = it.name
